@@ -68,6 +68,26 @@ def build(v, suite, ops, rnd, tier, h, d):
                 key = [(val, kd[i][0], kd[i][1]) for i, val in enumerate(k[:len(kd)])]
                 for stop in range(1, min(n, 140 if tier == "quick" else 600) + 1):
                     ops.add(s["name"], "scan_min", key=key, stop=stop, meta={"cls": "scan_min/%s/%s/every-stop" % (s["name"], name)}, **kw)
+    # a stopped scan whose callback ran (and stopped) another equality scan on the SAME index object in between: both
+    # stops are honoured independently
+    from vlib import btrace
+    for s in suite:
+        if s["name"].startswith("P"):
+            continue
+        tdb = s["tdb"]
+        for name, is_table, kd, t, ix in index_objects(s)[: (6 if tier == "quick" else 1000)]:
+            root = tdb.root(name)
+            if len(tdb.order[root]) < 6:
+                continue
+            kw = dict(obj=name) if is_table else dict(index=name)
+            keys = bf.cut_keys(tdb, root, len(kd), rnd, 2)
+            for k in keys[:2]:
+                key = [(val, kd[i][0], kd[i][1]) for i, val in enumerate(k[:len(kd)])]
+                for op_, extra_ in (("index_scan", {}), ("scan_min", {"key": key}), ("scan_eq", {"key": key})):
+                    for stop, inner_stop in ((3, 1), (5, 2), (2, 1)):
+                        i_ = ops.add(s["name"], op_, stop=stop, meta={"cls": "%s/%s/%s/nested-scan-eq" % (op_, s["name"], name)}, **dict(kw, **extra_))
+                        ops.items[i_]["h"].update(nested_at=1, nested={"op": "scan_eq", "dbkey": btrace.harness_key(key), "stop": inner_stop})
+                        ops.items[i_]["conf"] = False
     # histories on ONE handle: a stopped scan is the first visit of the pages, later stopped scans (other k) and the same
     # k again follow while the page cache is warm -- a stop must leave nothing half-done behind
     ng = 0
